@@ -10,8 +10,8 @@
     Exclusion: documents containing a NaN float ([no_nan]): the Rust code panics on those (F1). *)
 From Coq Require Import NArith ZArith List Bool.
 From SFV Require Import Base.Bytes Base.F64 Msgpack.Wire Read.Lazy Read.ReadRun Read.ReadSpec Read.ReadFuel Read.ReadProofs.
-From SFV Require Import Base.RsPrelude Read.LazyTypes Gen.LazyNewGen Read.LazyNewGenEq.
-From SFV Require Import Gen.LazyLoopsGen Read.ReadSafe Read.ReadRobust Read.LazyLoopsStmt Read.LoopsEq.
+From SFV Require Import Base.RsPrelude Read.LazyTypes Gen.LazyNewGen Read.LazyNewGenEq Read.SeqCorollaries.
+From SFV Require Import Gen.LazyLoopsGen Read.ReadSafe Read.ReadRobust Read.LazyLoopsStmt Read.LoopsEq Read.GenRun Read.GenRunEq Gen.ReadAbiGen Read.ReadAbiEq.
 Import ListNotations.
 Open Scope N_scope.
 
@@ -264,3 +264,67 @@ Example C01_code_loops_example :
   | _ => False
   end.
 Proof. vm_compute. repeat split; reflexivity. Qed.
+
+(** * Whole call sequences on the translated reader
+
+    [Read/GenRun.v] runs a sequence of read calls with every node operation done by the TRANSLATED Rust function
+    ([LazyValueRef_new], [LazyValueRef_get_at_index], [_get_key_at_index], [_get_object_property], [_get_value_length],
+    [_get_utf8_str_addr], hence the translated loops and [finish_processing] below them) over trees of the translated type;
+    what stays hand-written there is the bookkeeping that models raw addresses (handles as paths into the forest of roots, the
+    position of the pair a by-name lookup returns a reference to, the NaN-box of the answer).  [C01_code_run]: for EVERY input
+    of bytes that does not fill the address space and EVERY call sequence, its outputs are exactly the outputs of the reader
+    model and its trees are the model's under [conv] -- so C01, C08 and C11, proved about the model, are statements about
+    traces of the translated code: [C01_code_reads] is C01 itself with [g_run] in place of the model. *)
+Theorem C01_code_run : forall W trap bs ops,
+  Forall (fun b => b < 256) bs -> lenN bs + 9 < 2 ^ W -> 32 <= W ->
+  gouts (g_run W trap bs ops) = outs (run W trap (fuel_bs bs) bs ops) /\
+  map conv (groots (g_run W trap bs ops)) = roots (run W trap (fuel_bs bs) bs ops).
+Proof. exact gen_run_eq. Qed.
+
+Theorem C01_code_reads : forall (W : N) (trap : bool) (w : wire),
+  wf w = true -> no_nan w = true -> lenN (enc w) + 9 < 2 ^ W -> 32 <= W ->
+  forall ops : list rop, gouts (g_run W trap (enc w) ops) = spec_run w ops.
+Proof.
+  intros W trap w Hwf Hnn HW H32 ops.
+  destruct (gen_run_eq W trap (enc w) ops (SeqCorollaries.enc_bytes w Hwf) HW H32) as [E _].
+  rewrite E. apply (ReadProofs.C01_strong W trap w Hwf Hnn).
+  apply N.le_lt_trans with (lenN (enc w) + 9); [apply N.le_add_r|exact HW].
+Qed.
+
+Example C01_code_run_example :
+  let bs := [0x82; 0xa1; 0x61; 0x92; 0x05; 0xa1; 0x62; 0xa1; 0x62; 0xc3] in
+  gouts (g_run 32 true bs [RRoot; RProp (Some 0) [0x61]; RIdx (Some 1) 1; RStr (Some 2); RKey (Some 0) 1; RIdx (Some 1) 7]) =
+  [OVal (AObj (0, []) 2); OVal (AArr (0, [SVal 0]) 2); OVal (AStr (0, [SVal 0; SIdx 1]) 1); OBytes (Some [0x62]);
+   OVal (AStr (0, [SKey 1]) 1); OVal (AErr E_IndexOOB)].
+Proof. vm_compute. reflexivity. Qed.
+
+(** * The exported read functions (provider/src/read.rs): scope decode, dispatch, error codes -- regenerated (Gen/ReadAbiGen.v)
+
+    The six exported functions that take a NaN-boxed scope or a node address are regenerated by T8 with the raw-address
+    dereference ([LazyValueRef::mut_from_raw] = oracle [node_at]) and the node operations as oracle parameters (what those DO is
+    [C01_code_run] and the theorems above).  For EVERY oracle instance whose error codes are [usize] values, every context and every
+    scope bit pattern, at both pointer widths, each translated function is a closed-form dispatch on the model's [try_decode] of
+    the scope: which kinds are accepted, which error code each other kind gets (NotAnObject / NotIndexable; an undecodable scope
+    is DecodeError for the by-name reads and ReadError for the indexed ones), null for a missing property, [usize::MAX] from the
+    length query.  [C01_code_abi_model_dispatch] / [C01_code_abi_codes]: the reader model answers the same scope classes with the same
+    codes.  (The statements are the types of the lemmas of Read/ReadAbiEq.v, printed in full in coq/pins/C01.golden.) *)
+Theorem C01_code_abi_get_obj_prop : ltac:(let t := type of @abi_get_obj_prop_eq in exact t).
+Proof. exact @abi_get_obj_prop_eq. Qed.
+Theorem C01_code_abi_get_interned_obj_prop : ltac:(let t := type of @abi_get_interned_obj_prop_eq in exact t).
+Proof. exact @abi_get_interned_obj_prop_eq. Qed.
+Theorem C01_code_abi_get_interned_obj_prop_as_by_name : ltac:(let t := type of @abi_get_interned_obj_prop_as_by_name in exact t).
+Proof. exact @abi_get_interned_obj_prop_as_by_name. Qed.
+Theorem C01_code_abi_get_at_index : ltac:(let t := type of @abi_get_at_index_eq in exact t).
+Proof. exact @abi_get_at_index_eq. Qed.
+Theorem C01_code_abi_get_obj_key_at_index : ltac:(let t := type of @abi_get_obj_key_at_index_eq in exact t).
+Proof. exact @abi_get_obj_key_at_index_eq. Qed.
+Theorem C01_code_abi_get_val_len : ltac:(let t := type of @abi_get_val_len_eq in exact t).
+Proof. exact @abi_get_val_len_eq. Qed.
+Theorem C01_code_abi_get_utf8_str_addr : ltac:(let t := type of @abi_get_utf8_str_addr_eq in exact t).
+Proof. exact @abi_get_utf8_str_addr_eq. Qed.
+Theorem C01_code_abi_model_dispatch : ltac:(let t := type of @model_scope_dispatch in exact t).
+Proof. exact @model_scope_dispatch. Qed.
+Theorem C01_code_abi_model_val_len : ltac:(let t := type of @model_val_len_dispatch in exact t).
+Proof. exact @model_val_len_dispatch. Qed.
+Theorem C01_code_abi_codes : ltac:(let t := type of @abi_codes_agree in exact t).
+Proof. exact @abi_codes_agree. Qed.
